@@ -139,6 +139,9 @@ def run(ck):
     nfits = ck.n(60, 420)
     cases = []
     meta = {}
+    # multi-level trees WITH overlap at sizes where the children are a fraction of a row larger than the idealised (1/2 + f) m: the largest branch needs one level more
+    # than log(n/L) / log(1/(1/2+f)) suggests (fixed list + a few random ones per run); they come first, before the random configurations
+    BOUNDARY = [(30, 5, 0.05), (54, 5, 0.05), (23, 5, 0.1), (38, 5, 0.1), (33, 6, 0.15), (50, 6, 0.15)]
     for i in range(nfits):
         L = int(rng.choice([2, 3, 4, 5, 8, 12, 20, 33, 40]))
         k = int(rng.integers(0, 4))
@@ -148,8 +151,14 @@ def run(ck):
         # overlap fractions allowed by the property: (1-2f) L >= 4
         fcands = [f for f in [0.0, 0.05, 0.1, 0.25] if (1 - 2 * f) * L >= 4]
         f = float(rng.choice(fcands)) if fcands and rng.random() < 0.5 else 0.0
+        if i % 6 == 1:
+            j = i // 6
+            n, L, f = BOUNDARY[j] if j < len(BOUNDARY) else (int(rng.integers(20, 70)), int(rng.choice([5, 6, 8])), float(rng.choice([0.05, 0.1, 0.15])))
+            ck.count('overlap > 0 on a multi-level tree (boundary sizes)')
         quota = None if rng.random() < 0.7 else int(rng.integers(1, 4))
         if quota is not None and n < 2 ** (quota + 1):
+            quota = None
+        if i % 6 == 1:
             quota = None
         method = SPLIT_METHODS[i % len(SPLIT_METHODS)]
         kind = DATA_KINDS[(i // len(SPLIT_METHODS) + i) % len(DATA_KINDS)]      # every (split method, data kind) pair within the first 60 fits
